@@ -10,6 +10,9 @@
 From Coq Require Import List Arith Bool.
 From GMGP Require Import CycleDefs CycleProofs.
 Import ListNotations.
+From Coq Require Import Reals.
+From GMGP Require Scalar ScalarR StopDefs StopProofs.
+From GMGPGen Require ConvergedGen.
 
 Theorem C01_stop_is_on_fresh_residual_partial :
   forall maxit k L pre post extrap combined has_exact fgs it oracle evs itf fgsf,
@@ -30,3 +33,11 @@ Proof. exact cyc_writes. Qed.
 
 Print Assumptions C01_stop_is_on_fresh_residual_partial.
 Print Assumptions C01_stop_test_footprint.
+
+(* the decision itself, regenerated from GMGPolar::converged by translator T10: it reports convergence exactly when an ENABLED
+   tolerance is met by the norm that tolerance is defined for (relative: ||r_k|| / ||r_0||, absolute: ||r_k||) *)
+Theorem C01_converged_iff_tolerance_met : forall (atol rtol : option R) (rn reln : R),
+  @ConvergedGen.gen_converged ScalarR.Rsc atol rtol rn reln = true <->
+  (exists t, rtol = Some t /\ (reln <= t)%R) \/ (exists t, atol = Some t /\ (rn <= t)%R).
+Proof. exact StopProofs.converged_iff_tolerance_met. Qed.
+Print Assumptions C01_converged_iff_tolerance_met.
